@@ -53,6 +53,8 @@ SameObs(o1, o2) == /\ o1.alloc = o2.alloc /\ o1.disc = o2.disc /\ o1.rem = o2.re
 Clamp(v, lo, hi) == IF v < lo THEN lo ELSE IF v > hi THEN hi ELSE v
 Denote(op, o) == IF op.p = "start" THEN op.v ELSE IF op.p = "end" THEN o.cap - op.v ELSE o.alloc + op.v
 
+NClones(s) == IF "nclones" \in DOMAIN s THEN s.nclones ELSE 0
+
 \* ------------------------------------------------------------- successful allocation
 \* mb = [zeroOnReturn]
 AllocOkPreds(c, s, op, r, o, mb) ==
@@ -135,6 +137,14 @@ OtherPreds(c, s, op, r, o, mb) ==
      <<"C17", "ClearResets", r.k = "ok" /\ o.alloc = s.doff /\ o.fl = <<>> /\ o.disc = 0
                              /\ o.minseg = s.obs.minseg /\ o.cap = s.obs.cap /\ o.rem = s.obs.cap - s.doff>>,
      <<"C17", "ClearZeroesData", mb.dataZero>> >>
+  ELSE IF op.k = "mkclone" THEN <<
+     <<"C13", "CloneAddsOneArenaValue", r.k = "ok" /\ o.refs = s.obs.refs + 1 /\ o.alloc = s.obs.alloc /\ o.fl = s.obs.fl>> >>
+  ELSE IF op.k = "dropclone" /\ r.k = "ok" THEN <<
+     <<"C13", "CloneDropReturnsOneRef", o.refs = s.obs.refs - 1 /\ o.alloc = s.obs.alloc /\ o.fl = s.obs.fl>> >>
+  \* every arena value of the arena reports the capacity truncate has set (C18: "sets capacity() to max(n, allocated())
+  \* ... afterwards allocations succeed exactly when they fit the new capacity"; a clone is a value of the same arena)
+  ELSE IF op.k = "cobs" /\ r.k = "ok" THEN <<
+     <<"C18", "EveryArenaValueSeesNewCapacity", r.cap = o.cap /\ r.alloc = o.alloc /\ r.rem = o.cap - o.alloc>> >>
   ELSE IF op.k = "truncate" /\ r.k # "na" THEN <<
      <<"C18", "TruncateSetsCapacity", r.k = "ok" /\ o.cap = Max(op.v, s.obs.alloc)>>,
      <<"C18", "TruncateKeepsState", o.alloc = s.obs.alloc /\ o.disc = s.obs.disc /\ o.fl = s.obs.fl
@@ -154,7 +164,7 @@ StatePreds(c, s, s2, op, o, mb) == <<
   <<"C13", "FreeListDisjointFromDetached", FLvsLeaked(o.fl, s2.leaked)>>,
   \* (a reopen after a private copy-on-write session goes back to what the file holds: judged by C05)
   <<"C20", "DiscardedMonotone", op.k \in {"clear", "reopen"} \/ o.disc >= s.obs.disc>>,
-  <<"C13", "RefsCountArenaValues", o.refs = 1 + Cardinality({h \in DOMAIN s2.live : s2.live[h].embeds = 1})>>
+  <<"C13", "RefsCountArenaValues", o.refs = 1 + NClones(s2) + Cardinality({h \in DOMAIN s2.live : s2.live[h].embeds = 1})>>
   >>
 
 PanicProp(op) == IF IsAlloc(op) THEN "C04" ELSE IF op.k \in {"rewind", "clear"} THEN "C17"
